@@ -1,6 +1,238 @@
+import Proofs.C10.Wpkh
+import Props.C09
 /-!
-# C10 — property theorems only (see DESIGN.md §3 C10).
+# C10 — what the library builds and signs, its own engine accepts; tampering is rejected
+
+Property theorems only (DESIGN §3 C10).  C10 is the COMPOSITION of models that exist: the script evaluator is C08's
+`Core.verifyScript`, the message a signature is over is C09's specification digest, the finalizer's layout is
+`Btc.Spend.finalizedInput` (`Model/C10/Spend.lean`, tied to `psbt._finalized_input` byte for byte by the `c10.fin`
+stream), and the signature checker handed to the evaluator is `Btc.Spend.checkerOf` (`Model/C10/Engine.lean`: C09 digest
+→ C02 DER / ECDSA, C03 BIP340, C12 commitment; tied to btclib's engine verdict by the `c10.verdict` streams).
+
+* T1 (closure), landed for the witness-v0 key-hash templates **p2wpkh** and **p2sh-p2wpkh**, for EVERY flag set that has
+  WITNESS (and P2SH for the wrapped one) -- hence for the default, the standard and the all-flags sets.  The signature
+  check is a hypothesis here (`checkECDSA … = ok true` over the script code BIP143 prescribes): that a signature made
+  by `sign` over the digest the engine recomputes passes it is C02-T1 (`Props.C02.ecdsa_sign_verifies`) plus the DER
+  round trip (`Props.C02.der_parse_serialize`); that composition is executed, not yet proved (`c10.verdict`).
+  p2pk / p2pkh / multisig / taproot closures are NOT proved (see the end of this file); they are covered by the
+  executable composition on every finished input of every flow.
+* T2 (tamper ⇒ different message): what the engine hands to signature verification is an injective image of the
+  fields the hash type commits to, or an explicit hash collision exists.  Rejection itself rests on unforgeability,
+  which is ASSUMED.
 -/
 namespace Props.C10
+open Btc Btc.Script Btc.Script.Core Btc.Sighash Btc.Spend Btc.Spend.Eval
 
+/-! ## the finalizer's layout for the two templates (what `finalize` writes) -/
+
+/-- the finalizer on a p2wpkh input carrying its one signature: empty scriptSig, witness `[sig, pk]` -/
+theorem finalize_p2wpkh (vk : Bytes → Bool) (h pk sig : Bytes) (hl : h.length = 20) :
+    finalizedInput vk ⟨some (p2wpkh h), [], [], [(pk, sig)]⟩ = .ok ([], [sig, pk]) := by
+  have e : (p2wpkh h).length = 22 := by simp [p2wpkh, Gen.Spend.P2WPKH_PREFIX, hl]
+  have hns : isP2sh (p2wpkh h) = false := by simp [isP2sh, e]
+  have hms : p2msMAndKeys vk (p2wpkh h) = none := by simp [p2msMAndKeys, e]
+  have hw : isP2wpkh (p2wpkh h) = true := by
+    simp [isP2wpkh, p2wpkh, Gen.Spend.P2WPKH_PREFIX, getB, hl]
+  simp [finalizedInput, pushedSigs, satisfiedScript, spentScript, hns, hms, hw, singleKey, serializePushes,
+    bip147Dummy, isP2ms, bind, Except.bind, pure, Except.pure]
+
+/-- the finalizer on a p2sh-p2wpkh input: scriptSig = one push of the redeem script, witness `[sig, pk]` -/
+theorem finalize_p2sh_p2wpkh (vk : Bytes → Bool) (h hr pk sig : Bytes) (hl : h.length = 20) (hrl : hr.length = 20) :
+    finalizedInput vk ⟨some (p2sh hr), p2wpkh h, [], [(pk, sig)]⟩ = .ok (pushData (p2wpkh h), [sig, pk]) := by
+  have e : (p2wpkh h).length = 22 := by simp [p2wpkh, Gen.Spend.P2WPKH_PREFIX, hl]
+  have e' : (p2sh hr).length = 23 := by simp [p2sh, Gen.Spend.P2SH_PREFIX, Gen.Spend.P2SH_SUFFIX, hrl]
+  have h87 : (hr ++ [135])[20]? = some 135 := by
+    rw [List.getElem?_append_right (by omega)]; simp [hrl]
+  have hs : isP2sh (p2sh hr) = true := by
+    simp [isP2sh, p2sh, Gen.Spend.P2SH_PREFIX, Gen.Spend.P2SH_SUFFIX, getB, List.getD, h87, hrl]
+  have hms : p2msMAndKeys vk (p2wpkh h) = none := by simp [p2msMAndKeys, e]
+  have hw : isP2wpkh (p2wpkh h) = true := by
+    simp [isP2wpkh, p2wpkh, Gen.Spend.P2WPKH_PREFIX, getB, hl]
+  have hne : (p2wpkh h).isEmpty = false := by simp [p2wpkh, Gen.Spend.P2WPKH_PREFIX]
+  simp [finalizedInput, pushedSigs, satisfiedScript, spentScript, hs, hms, hw, hne, singleKey, serializePushes,
+    bip147Dummy, isP2ms, bind, Except.bind, pure, Except.pure]
+
+/-! ## T1 — closure -/
+
+/-- T1 (p2wpkh).  For every verification environment whose flags include WITNESS -- any of btclib's default set
+    `ALL_FLAGS`, Core's standard set, or all twenty-one flags -- what the finalizer writes for a p2wpkh input is
+    accepted by `VerifyScript`, provided: the program is the hash160 of the key (that is the output the descriptor
+    derived), the program is not a "false" byte string (all zero / negative zero: a 2⁻¹⁶⁰ event for a hash), the key is
+    compressed, the signature passes the encoding checks of these flags and is at most 520 bytes, and the signature
+    oracle accepts it for this key over the p2pkh script code BIP143 prescribes. -/
+theorem closure_p2wpkh (vk : Bytes → Bool) (env : VerifyEnv) (h sig pk : Bytes) (hl : h.length = 20)
+    (hW : has env.flags FLAG_WITNESS = true) (hnz : castToBool h = true)
+    (hh : env.hashes.ripemd160 (env.hashes.sha256 pk) = h)
+    (henc : checkSignatureEncoding env.flags sig = .ok ()) (hslen : sig.length ≤ 520)
+    (hpk : isCompressedPubKey pk = true)
+    (hsig : env.checker.checkECDSA sig pk (p2pkh h) .WITNESS_V0 = .ok true) :
+    ∃ ss wit, finalizedInput vk ⟨some (p2wpkh h), [], [], [(pk, sig)]⟩ = .ok (ss, wit) ∧
+      verifyScript env ss (p2wpkh h) wit = .ok () :=
+  ⟨_, _, finalize_p2wpkh vk h pk sig hl, verify_p2wpkh env h sig pk hl hW hnz hh henc hslen hpk hsig⟩
+
+/-- T1 (p2sh-p2wpkh): the same for the wrapped template, for every flag set with P2SH and WITNESS; `hr` is the hash160
+    of the redeem script `0 <h>`. -/
+theorem closure_p2sh_p2wpkh (vk : Bytes → Bool) (env : VerifyEnv) (h hr sig pk : Bytes)
+    (hl : h.length = 20) (hrl : hr.length = 20)
+    (hP : has env.flags FLAG_P2SH = true) (hW : has env.flags FLAG_WITNESS = true) (hnz : castToBool h = true)
+    (hhr : env.hashes.ripemd160 (env.hashes.sha256 (p2wpkh h)) = hr)
+    (hh : env.hashes.ripemd160 (env.hashes.sha256 pk) = h)
+    (henc : checkSignatureEncoding env.flags sig = .ok ()) (hslen : sig.length ≤ 520)
+    (hpk : isCompressedPubKey pk = true)
+    (hsig : env.checker.checkECDSA sig pk (p2pkh h) .WITNESS_V0 = .ok true) :
+    ∃ ss wit, finalizedInput vk ⟨some (p2sh hr), p2wpkh h, [], [(pk, sig)]⟩ = .ok (ss, wit) ∧
+      verifyScript env ss (p2sh hr) wit = .ok () :=
+  ⟨_, _, finalize_p2sh_p2wpkh vk h hr pk sig hl hrl,
+    verify_p2sh_p2wpkh env h hr sig pk hl hrl hP hW hnz hhr hh henc hslen hpk hsig⟩
+
+/-- the three flag sets the harness runs (regenerated from `engine/flags.py`) all have P2SH and WITNESS -/
+theorem standard_flag_sets :
+    ∀ f ∈ [Gen.Spend.ALL_FLAGS, Gen.Spend.STANDARD_FLAGS, Gen.Spend.EVERY_FLAG],
+      has f FLAG_P2SH = true ∧ has f FLAG_WITNESS = true := by decide
+
+/-- the script code the SIGNER picks for a p2wpkh / p2sh-p2wpkh input (`_witness_v0_script_code`) is the one the
+    engine's `VerifyWitnessProgram` evaluates and hands to the signature checker: p2pkh of the program, BIP143 -/
+theorem signer_script_code_p2wpkh (h hr : Bytes) (hl : h.length = 20) (hrl : hr.length = 20) (sigs : List (Bytes × Bytes)) :
+    ecdsaScriptCode ⟨some (p2wpkh h), [], [], sigs⟩ = some (.WITNESS_V0, p2pkh h) ∧
+    ecdsaScriptCode ⟨some (p2sh hr), p2wpkh h, [], sigs⟩ = some (.WITNESS_V0, p2pkh h) := by
+  have e : (p2wpkh h).length = 22 := by simp [p2wpkh, Gen.Spend.P2WPKH_PREFIX, hl]
+  have e' : (p2sh hr).length = 23 := by simp [p2sh, Gen.Spend.P2SH_PREFIX, Gen.Spend.P2SH_SUFFIX, hrl]
+  have h87 : (hr ++ [135])[20]? = some 135 := by
+    rw [List.getElem?_append_right (by omega)]; simp [hrl]
+  have hs : isP2sh (p2sh hr) = true := by
+    simp [isP2sh, p2sh, Gen.Spend.P2SH_PREFIX, Gen.Spend.P2SH_SUFFIX, getB, List.getD, h87, hrl]
+  have hns : isP2sh (p2wpkh h) = false := by simp [isP2sh, e]
+  have hw : isP2wpkh (p2wpkh h) = true := by
+    simp [isP2wpkh, p2wpkh, Gen.Spend.P2WPKH_PREFIX, getB, hl]
+  have hd : (p2wpkh h).drop 2 = h := by simp [p2wpkh, Gen.Spend.P2WPKH_PREFIX]
+  simp [ecdsaScriptCode, hs, hns, hw, hd]
+
+/-- hence signer and engine compute the SAME digest for such an input: both are `bip143Digest` of the same script
+    code, transaction, index, hash type and amount (the C09 model is shared) -/
+theorem signer_digest_is_engine_digest_p2wpkh {α : Type} (C : Crypto α) (cx : TxCtx) (h : Bytes) (hl : h.length = 20)
+    (ht : Nat) (sigs : List (Bytes × Bytes)) :
+    ecdsaDigest C.hash256 ⟨some (p2wpkh h), [], [], sigs⟩ cx.amount cx.tx cx.nIn ht =
+      some (engineEcdsaDigest C cx (p2pkh h) .WITNESS_V0 ht) := by
+  have := (signer_script_code_p2wpkh h (List.replicate 20 0) hl (by simp) sigs).1
+  simp [ecdsaDigest, this, engineEcdsaDigest]
+
+/-! ## T2 — tampering changes the message (or exhibits a collision) -/
+
+/-- T2 (legacy inputs: p2pk, p2pkh, bare and p2sh multisig).  If the engine recomputes the SAME digest for input `i`
+    of a tampered transaction -- outside the SIGHASH_SINGLE-bug constant -- then either nothing the hash type commits
+    to was changed (hash type, version, lock time, this input's outpoint and sequence, the script code; every outpoint
+    unless ANYONECANPAY; every sequence for ALL without ANYONECANPAY; every output unless NONE / SINGLE; the matching
+    output under SINGLE), or the two preimages are an explicit collision of hash256. -/
+theorem tamper_legacy {α : Type} (C : Crypto α) (cx cx' : TxCtx) (sc sc' : Bytes) (ht ht' : Nat)
+    (hi : cx'.nIn = cx.nIn) (wf : cx.tx.WF) (wf' : cx'.tx.WF) (hsc : Sized sc) (hsc' : Sized sc')
+    (hin : cx.nIn < cx.tx.vin.length) (hin' : cx.nIn < cx'.tx.vin.length) (hno : cx.nIn < 18446744073709551615)
+    (hht : ht < 4294967296) (hht' : ht' < 4294967296)
+    (hb : legacySingleBug cx.tx cx.nIn ht = false) (hb' : legacySingleBug cx'.tx cx.nIn ht' = false)
+    (h : engineEcdsaDigest C cx sc .BASE ht = engineEcdsaDigest C cx' sc' .BASE ht') :
+    (ht = ht' ∧ cx.tx.version = cx'.tx.version ∧ cx.tx.lockTime = cx'.tx.lockTime ∧
+      (cx.tx.vin.getD cx.nIn dfltIn).prev = (cx'.tx.vin.getD cx.nIn dfltIn).prev ∧
+      (cx.tx.vin.getD cx.nIn dfltIn).sequence = (cx'.tx.vin.getD cx.nIn dfltIn).sequence ∧
+      withoutCodeSeparators sc = withoutCodeSeparators sc' ∧
+      (anyoneCanPay ht = false → cx.tx.vin.map (·.prev) = cx'.tx.vin.map (·.prev)) ∧
+      (anyoneCanPay ht = false → isSingle ht = false → isNone ht = false →
+        cx.tx.vin.map (·.sequence) = cx'.tx.vin.map (·.sequence)) ∧
+      (isSingle ht = false → isNone ht = false → cx.tx.vout = cx'.tx.vout) ∧
+      (isSingle ht = true → cx.tx.vout.getD cx.nIn blankOut = cx'.tx.vout.getD cx.nIn blankOut)) ∨
+    Collides C.hash256 (legacyPreimage sc cx.tx cx.nIn ht) (legacyPreimage sc' cx'.tx cx.nIn ht') := by
+  simp only [engineEcdsaDigest, hi] at h
+  rcases Props.C09.legacy_digest_commits C.hash256 sc sc' cx.tx cx'.tx cx.nIn ht ht' hb hb' h with e | c
+  · exact Or.inl (Props.C09.legacy_commits sc sc' cx.tx cx'.tx cx.nIn ht ht' wf wf' hsc hsc' hin hin' hno hht hht' e)
+  · exact Or.inr c
+
+/-- T2 (segwit v0 inputs: p2wpkh, p2wsh and their p2sh wrappings).  The same digest for a tampered transaction /
+    spent amount means: same hash type, version, lock time, this input's outpoint and sequence, the WHOLE script code
+    and the spent AMOUNT; and every outpoint / sequence / output as the hash type prescribes -- each OR an explicit
+    collision of hash256 (`H` with 32-byte output). -/
+theorem tamper_segwit_v0 {α : Type} (C : Crypto α) (hH : ∀ x, (C.hash256 x).length = 32) (cx cx' : TxCtx)
+    (sc sc' : Bytes) (ht ht' : Nat) (hi : cx'.nIn = cx.nIn) (wf : cx.tx.WF) (wf' : cx'.tx.WF)
+    (hin : cx.nIn < cx.tx.vin.length) (hin' : cx.nIn < cx'.tx.vin.length)
+    (hsc : Sized sc) (hsc' : Sized sc') (ha : I64 cx.amount) (ha' : I64 cx'.amount)
+    (hht : ht < 4294967296) (hht' : ht' < 4294967296)
+    (h : engineEcdsaDigest C cx sc .WITNESS_V0 ht = engineEcdsaDigest C cx' sc' .WITNESS_V0 ht') :
+    (ht = ht' ∧ cx.tx.version = cx'.tx.version ∧ cx.tx.lockTime = cx'.tx.lockTime ∧
+      (cx.tx.vin.getD cx.nIn dfltIn).prev = (cx'.tx.vin.getD cx.nIn dfltIn).prev ∧
+      (cx.tx.vin.getD cx.nIn dfltIn).sequence = (cx'.tx.vin.getD cx.nIn dfltIn).sequence ∧
+      sc = sc' ∧ cx.amount = cx'.amount ∧
+      (anyoneCanPay ht = false →
+        cx.tx.vin.map (·.prev) = cx'.tx.vin.map (·.prev) ∨ Collides C.hash256 (serPrevouts cx.tx) (serPrevouts cx'.tx)) ∧
+      (anyoneCanPay ht = false → isSingle ht = false → isNone ht = false →
+        cx.tx.vin.map (·.sequence) = cx'.tx.vin.map (·.sequence) ∨
+          Collides C.hash256 (serSequences cx.tx) (serSequences cx'.tx)) ∧
+      (isSingle ht = false → isNone ht = false →
+        cx.tx.vout = cx'.tx.vout ∨ Collides C.hash256 (serOutputs cx.tx) (serOutputs cx'.tx)) ∧
+      (isSingle ht = true → cx.nIn < cx.tx.vout.length → cx.nIn < cx'.tx.vout.length →
+        cx.tx.vout.getD cx.nIn blankOut = cx'.tx.vout.getD cx.nIn blankOut ∨
+          Collides C.hash256 (serTxOut (cx.tx.vout.getD cx.nIn blankOut)) (serTxOut (cx'.tx.vout.getD cx.nIn blankOut)))) ∨
+    Collides C.hash256 (bip143Preimage C.hash256 sc cx.tx cx.nIn ht cx.amount)
+      (bip143Preimage C.hash256 sc' cx'.tx cx.nIn ht' cx'.amount) := by
+  simp only [engineEcdsaDigest, hi] at h
+  rcases Props.C09.bip143_digest_commits C.hash256 sc sc' cx.tx cx'.tx cx.nIn ht ht' cx.amount cx'.amount h with e | c
+  · exact Or.inl (Props.C09.bip143_commits C.hash256 hH sc sc' cx.tx cx'.tx cx.nIn ht ht' cx.amount cx'.amount
+      wf wf' hin hin' hsc hsc' ha ha' hht hht' e)
+  · exact Or.inr c
+
+/-- T2 (taproot inputs, key path and script path): the same BIP341 digest means the same `SigMsg` -- whose committed
+    fields are listed by `Props.C09.bip341_commits`: hash type, version, lock time, the BIP342 extension (tapleaf hash,
+    key version, codeseparator position), every outpoint / spent AMOUNT / spent SCRIPT / sequence without ANYONECANPAY
+    (this input's own with it), the outputs as the type prescribes -- or an explicit SHA-256 collision. -/
+theorem tamper_taproot {α : Type} (C : Crypto α) (cx cx' : TxCtx) (sv : SigVersion) (ht ht' pos pos' : Nat)
+    (h : engineTapDigest C cx sv ht pos = engineTapDigest C cx' sv ht' pos') :
+    bip341Preimage C.S cx.tx cx.nIn cx.spent ht cx.annex
+        (if sv == .TAPSCRIPT then some ⟨cx.leafHash, 0, pos⟩ else none) =
+      bip341Preimage C.S cx'.tx cx'.nIn cx'.spent ht' cx'.annex
+        (if sv == .TAPSCRIPT then some ⟨cx'.leafHash, 0, pos'⟩ else none) ∨
+    ∃ a b, Collides C.S a b := by
+  simp only [engineTapDigest] at h
+  exact Props.C09.bip341_digest_commits C.S _ _ _ _ _ _ _ _ _ _ _ _ h
+
+/-- T2, the form the harness exercises: under an ALL-like hash type (no NONE / SINGLE) a segwit-v0 signature is over
+    the outputs -- a transaction whose output list differs (an amount, a script, an order, a dropped output) gives the
+    signature checker a different digest, unless hash256 collides on one of the two explicit pairs. -/
+theorem tamper_outputs_segwit_v0 {α : Type} (C : Crypto α) (hH : ∀ x, (C.hash256 x).length = 32) (cx cx' : TxCtx)
+    (sc : Bytes) (ht : Nat) (hi : cx'.nIn = cx.nIn) (wf : cx.tx.WF) (wf' : cx'.tx.WF)
+    (hin : cx.nIn < cx.tx.vin.length) (hin' : cx.nIn < cx'.tx.vin.length)
+    (hsc : Sized sc) (ha : I64 cx.amount) (ha' : I64 cx'.amount) (hht : ht < 4294967296)
+    (hs : isSingle ht = false) (hn : isNone ht = false) (hne : cx.tx.vout ≠ cx'.tx.vout) :
+    engineEcdsaDigest C cx sc .WITNESS_V0 ht ≠ engineEcdsaDigest C cx' sc .WITNESS_V0 ht ∨
+    Collides C.hash256 (serOutputs cx.tx) (serOutputs cx'.tx) ∨
+    Collides C.hash256 (bip143Preimage C.hash256 sc cx.tx cx.nIn ht cx.amount)
+      (bip143Preimage C.hash256 sc cx'.tx cx.nIn ht cx'.amount) := by
+  by_cases h : engineEcdsaDigest C cx sc .WITNESS_V0 ht = engineEcdsaDigest C cx' sc .WITNESS_V0 ht
+  · rcases tamper_segwit_v0 C hH cx cx' sc sc ht ht hi wf wf' hin hin' hsc hsc ha ha' hht hht h with e | c
+    · rcases e.2.2.2.2.2.2.2.2.2.1 hs hn with e | c
+      · exact absurd e hne
+      · exact Or.inr (Or.inl c)
+    · exact Or.inr (Or.inr c)
+  · exact Or.inl h
+
+/-! ## non-vacuity -/
+
+-- a concrete 20-byte program, key and the finalizer's output on them
+example : finalizedInput (fun _ => true) ⟨some (p2wpkh (List.replicate 20 7)), [], [], [([2, 1], [0x30, 1])]⟩ =
+    .ok ([], [[0x30, 1], [2, 1]]) := by decide
+-- the hypotheses of `closure_p2wpkh` about flags are met by the three generated flag sets
+example : has Gen.Spend.ALL_FLAGS FLAG_WITNESS = true ∧ has Gen.Spend.STANDARD_FLAGS FLAG_P2SH = true := by decide
+-- a "false" program is the stated exception: the all-zero hash is not castToBool-true
+example : castToBool (List.replicate 20 0) = false := by decide
+-- a k-of-n finalization the model computes (2-of-3, signatures filed out of order, one foreign): dummy, two sigs in key order
+example : (pushedSigs (fun _ => true)
+    ⟨some (multisig 2 [List.replicate 33 2, List.replicate 33 3, List.replicate 33 4]), [], [],
+      [(List.replicate 33 4, [9]), (List.replicate 33 9, [7]), (List.replicate 33 2, [8])]⟩) = .ok [[8], [9]] := by decide
+
+/-
+NOT PROVED (full statements kept; the executable composition `Spend.verifyInput`, run against btclib's engine on every
+finished input and on tampered ones, is what covers them):
+* closure_p2pk / closure_p2pkh: as `closure_p2wpkh` with `scriptSig = push sig ‖ push pk`, sigversion BASE, plus the
+  hypothesis that FindAndDelete does not find `push sig` in the script code;
+* closure_multisig (bare / p2sh / p2wsh / p2sh-p2wsh): for `1 ≤ k ≤ n ≤ 20`, keys `ks`, a sublist of `k` signers in key
+  order: `verifyScript env (finalize …) = ok` -- by induction on `ks` through `multisigLoop`;
+* closure_taproot_key / closure_taproot_pk_leaf: with `checkSchnorr` and `commitment` discharged by C03-T1 / C12-T1;
+* checker completeness: `checkECDSA C cx (DER (sign …) ‖ ht) pk sc sv = ok true` from `Props.C02.ecdsa_sign_verifies` and
+  `Props.C02.der_parse_serialize` (needs: the engine's digest = the signer's, proved above for p2wpkh).
+-/
 end Props.C10
